@@ -14,8 +14,14 @@ Ltac2 Set Whnf.is_blocked as old := fun c =>
   Ltac2.Bool.or (old c)
     (Ltac2.Bool.or (Ltac2.Constr.equal c '@Angle___init__) (Ltac2.Constr.equal c '@fmod_py)).
 
+(* an exception raised while computing the argument of Angle(...) propagates *)
+Lemma init_err_raw e :
+  Angle___init__ Rops (VObj cAngle [VNone; VNone]) (VErr e) (VDict []) = VErr e.
+Proof. reflexivity. Qed.
+
 Ltac pyA_hook s tac ::=
   lazymatch s with
+  | Angle___init__ Rops (VObj cAngle [VNone; VNone]) (VErr ?e) (VDict []) => rewrite (init_err_raw e)
   | Angle___init__ Rops (VObj cAngle [VNone; VNone]) (VTuple [VFloat ?r]) (VDict []) =>
       rewrite (init_float_raw r)
   | Angle___init__ Rops (VObj cAngle [VNone; VNone]) (VTuple [VInt ?z]) (VDict []) =>
@@ -246,3 +252,23 @@ Lemma eq_AF a ta y : Angle___eq__ Rops (angT a ta) (VFloat y) = VBool (Rltb (Rab
 Proof. op_solve. Qed.
 Lemma ne_AA a ta b tb : Angle___ne__ Rops (angT a ta) (angT b tb) = VBool (negb (Rltb (Rabs (a - b)) ta)).
 Proof. destruct (Rlt_dec (Rabs (a - b)) ta). - cmp_fin. - cmp_fin. Qed.
+
+(* ------------------------------------------------------ additions (audit follow-up) *)
+(* zero modulus in every form: Angle % 0.0 (in-place too), % int 0, % Angle holding exactly 0,
+   number % Angle holding exactly 0 *)
+Lemma imod_AF_zero a ta : Angle___imod__ Rops (angT a ta) (VFloat 0) = VErr ZeroDivisionError.
+Proof. destruct (Rle_dec 0 a). - op_solve. - op_solve. Qed.
+Lemma mod_AI_zero a ta : Angle___mod__ Rops (angT a ta) (VInt 0) = VErr ZeroDivisionError.
+Proof. destruct (Rle_dec 0 a). - op_solve. - op_solve. Qed.
+Lemma mod_AA_zero a ta tb : Angle___mod__ Rops (angT a ta) (angT 0 tb) = VErr ZeroDivisionError.
+Proof. destruct (Rle_dec 0 a). - op_solve. - op_solve. Qed.
+Lemma rmod_AF_zero ta y : Angle___rmod__ Rops (angT 0 ta) (VFloat y) = VErr ZeroDivisionError.
+Proof. destruct (Rle_dec 0 (red360 y)). - op_solve. - op_solve. Qed.
+
+(* comparisons with a float on the right: <=, >=, != *)
+Lemma ge_AF a ta y : Angle___ge__ Rops (angT a ta) (VFloat y) = VBool (negb (Rltb a y)).
+Proof. destruct (Rlt_dec a y). - cmp_fin. - cmp_fin. Qed.
+Lemma le_AF a ta y : Angle___le__ Rops (angT a ta) (VFloat y) = VBool (negb (Rltb y a)).
+Proof. destruct (Rlt_dec y a). - cmp_fin. - cmp_fin. Qed.
+Lemma ne_AF a ta y : Angle___ne__ Rops (angT a ta) (VFloat y) = VBool (negb (Rltb (Rabs (a - y)) ta)).
+Proof. destruct (Rlt_dec (Rabs (a - y)) ta). - cmp_fin. - cmp_fin. Qed.
